@@ -273,7 +273,7 @@ func interpScenario(id string) *engine.Scenario {
 		Real:     []string{"pipeline.Parse", "(*Pipeline).Interpolate (interpolateEnvBlock, interpolateAny/Slice/Map/OrderedMap, every step kind's interpolate method)", "ordered.Map.Range/Replace re-entrancy", "github.com/buildkite/interpolate (also used as the single-pass reference)"},
 		Stub:     []string{"Author (document generator)", "EnvNode (caller environment; case-sensitive or -insensitive; records Set history)", "map iteration scheduler (zzverifsim) in place of the Go runtime's map iterator", "reflective dump (view) as observer"},
 		Assume: []string{"single-pass expansion of one string is defined by the third-party buildkite/interpolate library (not under test)",
-			"inputs where two sibling keys expand to the same name are outside the property's domain (something must be lost) and are counted, not judged",
+			"inputs where two sibling keys of a free-form mapping expand to the same name are outside the property's domain (something must be lost) and are counted, not judged; inside the pipeline env block such a rename IS judged: the entry is rewritten in place, the other entry of that name ceases to exist and is not processed, nothing is expanded twice",
 			"the map iterator grants exactly the freedom of the Go spec (order; created entries may or may not be produced) - more liberal than today's runtime"},
 		TimeoutSec: 120,
 	}
@@ -436,8 +436,8 @@ func runInterp(c *engine.Ctx, focus string) {
 		c.ProbeN("env_block_renames_onto_a_sibling_entry", ex.blockRenamesOntoSibling)
 	}
 	if ex.collision {
-		// outside the property's domain (two sibling keys end up with the same
-		// name, or an env-block rename lands on a sibling): checked before the
+		// outside the property's domain (two sibling keys of a free-form mapping end
+		// up with the same name): checked before the
 		// error expectation, because a collision can delete the very entry whose
 		// expansion would have failed.
 		c.Probe("sibling_key_collision_excluded")
